@@ -186,6 +186,15 @@ ae = body_of(sw, r'bool\s+SessionWriter::addEvent\s*\(')
 fact('writer_addEvent_shape', 'bool', coq_bool(has(ae, r'totalSize\s*=\s*size\s*\+\s*sizeof\s*\(\s*std::uint32_t\s*\)\s*;\s*if\s*\(\s*!\s*_qw\.beginWrite\s*\(\s*totalSize\s*\)\s*\)\s*\{\s*replaceChannel\s*\(\s*totalSize\s*\)\s*;\s*if\s*\(\s*!\s*_qw\.beginWrite\s*\(\s*totalSize\s*\)\s*\)\s*\{\s*return\s+false\s*;\s*\}\s*\}') and
     has(ae, r'mserialize::serialize\s*\(\s*std::uint32_t\s*\(\s*size\s*\)\s*,\s*_qw\s*\).*_qw\.endWrite\s*\(\s*\)\s*;\s*return\s+true')))
 
+# ---------------------------------------------------------------- mserialize::visit (C09): recursion limit and the guard against zero-size elements
+vh = src('include/mserialize/visit.hpp'); vd = src('include/mserialize/detail/Visit.hpp')
+m = re.search(r'detail::visit_impl\s*\(\s*tag\s*,\s*tag\s*,\s*visitor\s*,\s*istream\s*,\s*(\d+)\s*\)', vh)
+fact('visit_max_recursion', 'N', (m.group(1) if m else '0'), '(visit.hpp)')
+vs = body_of(vd, r'void\s+visit_sequence\s*\(')
+m = re.search(r'if\s*\(\s*size\s*>\s*(\d+)\s*&&\s*singular\s*\(\s*full_tag\s*,\s*elem_tag\s*,\s*max_recursion\s*\)\s*\)\s*\{(.*?)\}\s*else\s*\{\s*while\s*\(\s*size--\s*\)\s*\{\s*visit_impl\s*\(\s*full_tag\s*,\s*elem_tag\s*,\s*visitor\s*,\s*istream\s*,\s*max_recursion\s*\)\s*;\s*\}\s*\}', vs, re.S)
+fact('visit_singular_threshold', 'N', (m.group(1) if m else '0'), '(visit_sequence)')
+fact('visit_singular_visits_once', 'bool', coq_bool(bool(m) and m.group(2).count('visit_impl') == 1 and 'while' not in m.group(2) and 'for' not in m.group(2)))
+
 # ---------------------------------------------------------------- recovery (C20, C08)
 br = src('bin/brecovery.cpp')
 def hexconst(text, pat):
